@@ -1209,9 +1209,41 @@ fail:
 	return NULL;
 }
 
+/* Size of the user's variable behind a "simple" option, 0 if there is none */
+static size_t cfg_simple_size(cfg_opt_t *opt)
+{
+	if (!opt->simple_value.ptr)
+		return 0;
+
+	switch (opt->type) {
+	case CFGT_INT:
+		return sizeof(long);
+	case CFGT_FLOAT:
+		return sizeof(double);
+	case CFGT_BOOL:
+		return sizeof(cfg_bool_t);
+	case CFGT_STR:
+	case CFGT_PTR:
+		return sizeof(void *);
+	default:
+		return 0;
+	}
+}
+
+/* Drop what a "simple" string or pointer option holds */
+static void cfg_simple_release(cfg_opt_t *opt, cfg_value_t *val)
+{
+	if (opt->type == CFGT_STR)
+		free(val->string);
+	else if (opt->type == CFGT_PTR && val->ptr && opt->freecb)
+		opt->freecb(val->ptr);
+}
+
 DLLIMPORT int cfg_opt_setmulti(cfg_t *cfg, cfg_opt_t *opt, unsigned int nvalues, char **values)
 {
 	cfg_opt_t old;
+	cfg_value_t simple;
+	size_t ssize;
 	char *comment;
 	unsigned int i;
 
@@ -1223,6 +1255,14 @@ DLLIMPORT int cfg_opt_setmulti(cfg_t *cfg, cfg_opt_t *opt, unsigned int nvalues,
 	old = *opt;
 	opt->nvalues = 0;
 	opt->values = NULL;
+
+	/* The value of a "simple" option lives in the user's variable */
+	ssize = cfg_simple_size(opt);
+	if (ssize) {
+		memcpy(&simple, opt->simple_value.ptr, ssize);
+		if (opt->type == CFGT_STR || opt->type == CFGT_PTR)
+			memset(opt->simple_value.ptr, 0, ssize);
+	}
 
 	/* The annotation stays with the option, whatever happens to the values */
 	comment = opt->comment;
@@ -1240,11 +1280,17 @@ DLLIMPORT int cfg_opt_setmulti(cfg_t *cfg, cfg_opt_t *opt, unsigned int nvalues,
 		opt->flags &= ~(CFGF_RESET | CFGF_MODIFIED);
 		opt->flags |= old.flags & (CFGF_RESET | CFGF_MODIFIED);
 		opt->comment = comment;
+		if (ssize) {
+			cfg_simple_release(opt, (cfg_value_t *)opt->simple_value.ptr);
+			memcpy(opt->simple_value.ptr, &simple, ssize);
+		}
 
 		return CFG_FAIL;
 	}
 
 	cfg_free_value(&old);
+	if (ssize)
+		cfg_simple_release(opt, &simple);
 	opt->comment = comment;
 	opt->flags |= CFGF_MODIFIED;
 
